@@ -522,6 +522,9 @@ func (g *Gen) payload(kind string, big bool) *Sx {
 			return L(A("D"), N(g.u8()), N(0), N(0), L())
 		}
 		n := g.pick(0, 1, 1, 2, 3, 4, 17, g.r.Intn(40))
+		if g.chance(0.06) { // counts around the 8-bit range and at the largest that fits the 16-bit payload length
+			n = g.pick(255, 256, 257, 300, 1000, 16380, 16381)
+		}
 		sp := L()
 		for i := 0; i < n; i++ {
 			sp.List = append(sp.List, N(g.u32()))
